@@ -1762,10 +1762,23 @@ func (c *codegen) processDefers() {
 		// the stack, the remaining deferred calls are executed as usual.
 		results := c.scope.decl.Type.Results
 		if results.NumFields() != 0 {
-			// After panic, default values must be returns, except for named returns,
-			// which we don't support here for now.
+			// After panic, default values must be returned for unnamed results
+			// and the current values for the named ones.
 			for i := range slices.Backward(results.List) {
-				c.emitDefault(c.typeOf(results.List[i].Type))
+				names := results.List[i].Names
+				if len(names) == 0 {
+					c.emitDefault(c.typeOf(results.List[i].Type))
+					continue
+				}
+				for j := range slices.Backward(names) {
+					if names[j].Name == "_" {
+						c.emitDefault(c.typeOf(results.List[i].Type))
+					} else {
+						// Named results live in the outermost scope of the function,
+						// take them from there: the name can be shadowed at this point.
+						c.emitLoadByIndex(varLocal, c.scope.vars.locals[0][names[j].Name].index)
+					}
+				}
 			}
 		}
 		emit.Jmp(c.prog.BinWriter, opcode.ENDTRYL, after)
